@@ -201,15 +201,24 @@ func runC20(c *Ctx) {
 			time.Sleep(50 * time.Millisecond)
 		}
 		open := len(w.Eng.OpenTxns()) - sessions0
-		// connections checked out of the shared pools and never given back
-		inUse := w.DB.Stats().InUse + xa.Stats().InUse
-		for _, bt := range []branch.BranchType{branch.BranchTypeAT, branch.BranchTypeXA} {
-			datasource.GetDataSourceManager(bt).GetCachedResources().Range(func(_, v interface{}) bool {
-				if res, ok := v.(*sql2.DBResource); ok && res.GetDB() != nil {
-					inUse += res.GetDB().Stats().InUse
-				}
-				return true
-			})
+		// connections checked out of the shared pools and never given back (the asynchronous commit worker
+		// may still be deleting undo logs: give the pools a moment to drain)
+		countInUse := func() int {
+			n := w.DB.Stats().InUse + xa.Stats().InUse
+			for _, bt := range []branch.BranchType{branch.BranchTypeAT, branch.BranchTypeXA} {
+				datasource.GetDataSourceManager(bt).GetCachedResources().Range(func(_, v interface{}) bool {
+					if res, ok := v.(*sql2.DBResource); ok && res.GetDB() != nil {
+						n += res.GetDB().Stats().InUse
+					}
+					return true
+				})
+			}
+			return n
+		}
+		inUse := countInUse()
+		for k := 0; k < 100 && inUse > 0; k++ {
+			time.Sleep(50 * time.Millisecond)
+			inUse = countInUse()
 		}
 		undoLeft := len(w.Eng.Dump("undo_log"))
 		obs := fmt.Sprintf("terminated=%d tx=%d", b2i(terminated), atomic.LoadInt64(&txDone))
